@@ -23,7 +23,7 @@ def aspect_props(w):
         return {"C08", "C01"}
     if w.startswith("equiv"):
         return {"C02"}
-    if w.split("_", 1)[-1] in ("cyc0", "acct", "stopret", "stopflag"):
+    if w.split("_", 1)[-1] in ("cyc0", "acct", "stopret", "stopflag", "stoplost", "wdmcb"):
         return {"C12"}
     return {"C01"}
 
@@ -105,12 +105,92 @@ def step_checks(ck, prop, tier, vh):
         open_ids = {f["id"]: f for f in load_findings(prop)}
         for dev, cnt in known.items():
             if dev in open_ids:
-                ck.known_finding("%s: %s (%d events this run)" % (dev, open_ids[dev]["text"], cnt))
+                ck.known_finding("%s: %s" % (dev, open_ids[dev]["text"]))
             else:
                 ck.violation("behaviour matches deviation %s, which is not an open known finding" % dev, {"deviation": dev, "count": cnt})
         return nev
     finally:
         shutil.rmtree(d, ignore_errors=True)
+
+
+def mc_and_replay(ck, prop, tier, vh, trace=False):
+    """Exhaustive CpuMC run (specification-level invariants) and replay of every exported corner pre-state on both real CPUs."""
+    import re
+    from vlib import SPEC
+    thorough = tier == "thorough"
+    nc = 60 if not thorough else 420
+    base = open(os.path.join(SPEC, "CpuMC.cfg")).read()
+    d = scratch_dir("vcmc")
+    try:
+        evs = []
+        for emu in ([False, True] if prop in ("C02", "C08", "C12", "C14") else [False]):
+            cfg = re.sub(r"NCorners = \d+", "NCorners = %d" % nc, base).replace("DoExport = FALSE", "DoExport = TRUE")
+            if emu:
+                cfg = cfg.replace("Emu = FALSE", "Emu = TRUE")
+            r = run_tlc("CpuMC", cfg, workers=12, heap="8g", timeout=6000)
+            if r.violated or r.tuple_prints("FAILED"):
+                raise Infra("Cpu65816.tla violates its own invariant: %s %s" % (r.violated, r.tuple_prints("FAILED")[:3]))
+            ck.add_tlc("CpuMC (256 opcodes x widths x %d corners, Emu=%s)" % (nc, emu), r,
+                       "TypeOK, AddrInRange, WritesBounded, OnlyListedFree, BinaryIsDeterminate, PCAdvance")
+            evs += r.json_prints("EV")
+        evs.sort(key=lambda e: e["seed"])
+        nchunks = 12
+        parts = [evs[i * len(evs) // nchunks:(i + 1) * len(evs) // nchunks] for i in range(nchunks)]
+
+        def one(i):
+            def f():
+                ip = os.path.join(d, "in%d.ndjson" % i)
+                with open(ip, "w") as fh:
+                    for e in parts[i]:
+                        fh.write(json.dumps(e) + "\n")
+                tr = os.path.join(d, "mc%d.ndjson" % i)
+                out, _ = run_vh(vh, ["cpu", "trace-replay" if trace else "replay", ip, tr], env_extra={"VERIF_SEED": str(seed() * 77 + i)})
+                r = run_tlc("CpuTrace", "CpuTrace.cfg", workers=1, files={"cpu.ndjson": tr}, heap="3g", timeout=6000)
+                if r.violated:
+                    raise Infra("CpuTrace (replay) chunk %d: %s" % (i, r.violated))
+                os.remove(tr)
+                return r
+            return f
+        res = parallel([one(i) for i in range(nchunks)], nthreads=12)
+        bads = []
+        for i, r in enumerate(res):
+            ck.cov["states"] += r.distinct
+            ck.cov["transitions"] += r.generated
+            for b in r.json_prints("BAD"):
+                b["chunk"] = i
+                bads.append(b)
+        ck.add_part("replay of CpuMC corner pre-states on both real interpreters", kind="tlc-trace", events=len(evs))
+        ck.cov["traces_validated_against_impl"] += len(evs)
+        ck.cov["evaluations"] += len(evs)
+        ck.cov["distinct_nontrivial"] += len(evs)
+        return bads
+    finally:
+        shutil.rmtree(d, ignore_errors=True)
+
+
+def report_bads(ck, prop, bads, where):
+    known = {}
+    for b in bads:
+        ev = b["ev"]
+        op = opcode_of(ev)
+        for w in b["why"]:
+            if "_line_" in w:
+                continue
+            if prop not in aspect_props(w):
+                continue
+            if "_known_" in w:
+                dev = w.split("_known_")[1]
+                known[dev] = known.get(dev, 0) + 1
+                continue
+            ck.violation("%s chunk %d line %d: %s at opcode $%02X: pre=%s pri=%s alt=%s" % (
+                where, b["chunk"], b["line"], w, op, json.dumps(ev["pre"]), json.dumps(ev["pri"])[:300], json.dumps(ev["alt"])[:300]),
+                {"where": where, "line": b["line"], "why": b["why"], "event": ev})
+    open_ids = {f["id"]: f for f in load_findings(prop)}
+    for dev, cnt in known.items():
+        if dev in open_ids:
+            ck.known_finding("%s: %s" % (dev, open_ids[dev]["text"]))
+        else:
+            ck.violation("behaviour matches deviation %s, which is not an open known finding" % dev, {"deviation": dev, "count": cnt})
 
 
 def run(prop, tier, replay):
@@ -122,6 +202,7 @@ def run(prop, tier, replay):
         "non-authoritative register copies are loaded with junk only where junk is reachable",
     ]
     vh = build_harness()
+    report_bads(ck, prop, mc_and_replay(ck, prop, tier, vh), "CpuMC replay")
     step_checks(ck, prop, tier, vh)
     if prop == "C12":
         import runloop
